@@ -387,16 +387,70 @@ Proof.
 Qed.
 Print Assumptions C06_text_concat_paths.
 
-(* NOT proved: for arbitrary texts a, b with text_acl a = inr A and text_acl b = inr B the equation
-   compile_acl_text (a + "\n" + b) = structured_outcome (A ++ B).  By C06_text_concat_paths it remains to
-   show that inserting b's paths in text order and inserting the preorder paths of b's tree build the
-   same tree on top of a's tree (insall ps f = insall (paths [] (insall ps [])) f), and that no row
-   of a or b is skipped (bare "!" rows, %context rows). *)
+(* For arbitrary texts a, b (not only printed ones) with text_acl a = inr A and text_acl b = inr B:
+   compile_acl_text (a + "\n" + b) = structured_outcome (A ++ B).  Proofs/AclTextConcat.v: the items read
+   off the tree of pa ++ pb (C06_text_concat_paths) are the grouping parse_items of the items of pa's tree
+   followed by those of pb's tree, level by level (insall_by_keys), lines with the same text under the
+   same parent being one node; a row the item reader skips (a bare "!" row, a %context row) is skipped
+   with everything below it on both sides, so A and B need not cover every row of a and b. *)
 Definition C06_text_concat_general_statement : Prop :=
   forall (a b : string) (x y : acl) (v : avendor),
     cont_line b = false -> text_sect0 a = true -> text_sect0 b = true ->
     text_acl a = inr x -> text_acl b = inr y ->
     compile_acl_text (a ++ nl_s ++ b) v = structured_outcome (acl_concat x y).
+
+From Annet Require Import Proofs.AclTextConcat.
+
+Theorem C06_text_concat_general : C06_text_concat_general_statement.
+Proof. intros a b x y v Hc Sa Sb Ha Hb. exact (proj2 (text_concat_general a b x y v Hc Sa Sb Ha Hb)). Qed.
+Print Assumptions C06_text_concat_general.
+
+(* ... and the structured ACL a + "\n" + b stands for is the grouping of A ++ B *)
+Theorem C06_text_concat_acl :
+  forall (a b : string) (x y : acl),
+    cont_line b = false -> text_sect0 a = true -> text_sect0 b = true ->
+    text_acl a = inr x -> text_acl b = inr y ->
+    text_acl (a ++ nl_s ++ b) = inr (Acl.parse_items (S (acl_depth (acl_concat x y))) (acl_concat x y)).
+Proof. intros a b x y Hc Sa Sb Ha Hb. exact (proj1 (text_concat_general a b x y no_vendor Hc Sa Sb Ha Hb)). Qed.
+Print Assumptions C06_text_concat_acl.
+
+(* the tree-level core: the items of the tree of two runs of paths, one after the other *)
+Theorem C06_items_of_paths_app :
+  forall n pa pb x y, pitems n pa = inr x -> pitems n pb = inr y ->
+    pitems n (pa ++ pb) = inr (Acl.parse_items n (x ++ y)).
+Proof. exact pitems_app. Qed.
+Print Assumptions C06_items_of_paths_app.
+
+Theorem C06_items_of_paths :
+  forall n ps, (forall p, In p ps -> List.length p <= n) -> items_of_forest (insall ps []) = pitems n ps.
+Proof. exact items_of_insall. Qed.
+Print Assumptions C06_items_of_paths.
+
+(* non-vacuity: two hand-written texts (other indentation units, a comment, a continuation row, a bare "!"
+   row with a child, a %context row, a line of b repeating a line of a with other children) *)
+Example C06_example_concat_general :
+  let a := "interface *
+  mtu *  %global
+  # a comment
+!
+    below a skipped row
+vlan *
+   %prio=2" in
+  let b := "%context=block:x
+interface *
+        ip ~ %cant_delete
+vlan *   %prio=2
+  name ~" in
+  cont_line b = false /\ text_sect0 a = true /\ text_sect0 b = true /\
+  match text_acl a, text_acl b with
+  | inr x, inr y =>
+    List.length x = 2 /\ List.length y = 2 /\
+    compile_acl_text (a ++ nl_s ++ b) no_vendor =
+    inr ([ARule "interface *" [true] 0 [] [ARule "ip ~" [true] 0 [] [] []] [ARule "mtu *" [false] 0 [] [] []];
+          ARule "vlan *" [false; false] 2 [] [ARule "name ~" [false] 0 [] [] []] []], [])
+  | _, _ => False
+  end.
+Proof. vm_compute. repeat split. Qed.
 
 (* Blank rows and comment rows are irrelevant: texts whose rows differ only in rows the parser skips
    compile to the same rules (a ParserError names the same row; only its line number moves) ... *)
@@ -471,11 +525,13 @@ Proof. vm_compute. repeat split. Qed.
 Example C06_example_skip_line : skip_line "      # a comment" = true /\ skip_line "   " = true /\ skip_line "# col 0" = false.
 Proof. vm_compute. repeat split. Qed.
 
-(* NOT proved (tested instead: the correspondence run evaluates acl_okb on every structured ACL
-   aclgen generates): the line printer of harness/aclgen.py, raw_rule (Model/AclText.v print_raw),
-   always produces a line inside the guard of C06_text_roundtrip.  Missing: the scanner pscan on a
-   concatenation (row, then " %key=value" groups), split_list of a comma-joined list, and
-   nat_of_digits (dec n) = n. *)
+(* The line printer of harness/aclgen.py, raw_rule (Model/AclText.v print_raw), always produces a line
+   inside the guard of C06_text_roundtrip: the line is its own key and the model of _parse_raw_rule reads
+   back the printed fields (Proofs/AclTextPrint.v: the %params scanner pscan on row ++ " %key[=value]"
+   groups, split_list of a comma-joined list, nat_of_digits (dec n) = n).  Guards: the row is a stripped
+   single-blank row without a percent sign and not an ignore row, generator names are non-empty without
+   blanks and commas, cant_delete is not the empty list (raw_rule would print "%cant_delete=", which reads
+   as [True]). *)
 From Coq Require Import Ascii.
 From Annet Require Model.Json.
 From Annet Require Import Model.PatternT.
@@ -489,6 +545,43 @@ Definition C06_print_raw_statement : Prop :=
     pat_ok pat = true -> forallb gen_name_ok gens = true -> cd <> Some [] ->
     let raw := print_raw pat false glob cd cd_bare prio prio_explicit gens Json.dec in
     line_ok raw = true /\ parse_line raw = LItem pat false glob cd prio gens.
+
+From Annet Require Import Proofs.AclTextPrint.
+
+Theorem C06_print_raw : C06_print_raw_statement.
+Proof. exact print_raw_ok. Qed.
+Print Assumptions C06_print_raw.
+
+(* the %params scanner on a printed line: exactly the printed groups, in order *)
+Theorem C06_find_params_printed :
+  forall pat gs, sall nopct pat = true -> forallb gok gs = true -> find_params (pat ++ gsfx gs) = map kv gs.
+Proof. exact find_params_printed. Qed.
+Print Assumptions C06_find_params_printed.
+
+(* C06_text_roundtrip without the guard acl_ok, for every ACL aclgen can generate (gitem: the generator's
+   dicts, any depth and width, repeated lines included; aitem_of: aclgen.coq_aitem, the line by raw_rule):
+   the guards are on the atoms the generator draws (rows, generator names, cant_delete lists) only *)
+Theorem C06_generated_acl_ok :
+  forall gs, forallb gitem_okb gs = true -> acl_ok (map aitem_of gs).
+Proof. exact generated_acl_ok. Qed.
+Print Assumptions C06_generated_acl_ok.
+
+Theorem C06_text_roundtrip_generated :
+  forall gs v, forallb gitem_okb gs = true ->
+    compile_acl_text (acl_text (map aitem_of gs)) v = structured_outcome (map aitem_of gs).
+Proof. exact generated_roundtrip. Qed.
+Print Assumptions C06_text_roundtrip_generated.
+
+Example C06_example_generated :
+  let g := [GItem "interface */[a-z0-9]+/ ~" true (Some [true; false]) false 12 true ["g1"; "g2"] [];
+            GItem "vlan *" false (Some [true]) true 0 true []
+                  [GItem "name ~" false None false 3 false ["g3"] []; GItem "vlan *" false None false 0 false [] []];
+            GItem "vlan *" false None false 0 false [] [GItem "mtu 1500" false None false 0 false [] []]] in
+  forallb gitem_okb g = true /\ acl_okb (map aitem_of g) = true /\
+  map ai_raw (map aitem_of g) =
+    ["interface */[a-z0-9]+/ ~ %global %cant_delete=1,0 %prio=12 %generator_names=g1,g2";
+     "vlan * %cant_delete %prio=0"; "vlan *"].
+Proof. vm_compute. repeat split. Qed.
 
 Example C06_example_print_raw :
   let raw := print_raw "interface */[a-z0-9]+/ ~" false true (Some [true; false]) false 12 true ["g1"; "g2"] Json.dec in
